@@ -15,6 +15,16 @@ use std::task::{Context, Poll};
 pub static BODY: [AtomicU32; 8] = [const { AtomicU32::new(0) }; 8];
 pub static EVAL: [AtomicU32; 16] = [const { AtomicU32::new(0) }; 16];
 pub static DROPS: AtomicU32 = AtomicU32::new(0);
+/// when set, the next evaluation of that site's value expression panics (once)
+pub static PANIC_NEXT: [std::sync::atomic::AtomicBool; 16] = [const { std::sync::atomic::AtomicBool::new(false) }; 16];
+
+/// called first thing by every value expression handed to `async_return!`
+pub fn ev(slot: usize) {
+    EVAL[slot].fetch_add(1, SeqCst);
+    if PANIC_NEXT[slot].swap(false, SeqCst) {
+        panic!("value expression fails (user code)");
+    }
+}
 
 #[derive(Clone, Debug, PartialEq, Eq)]
 pub struct Big(pub [u64; 16]);
@@ -90,6 +100,8 @@ pub enum Op {
     Fake(u8, u8),
     Drop,
     Panic,
+    /// one await of faked function `f` whose value expression panics (the awaiting code catches it)
+    ValuePanic(u8),
 }
 
 pub fn op_to_str(o: &Op) -> String {
@@ -97,13 +109,14 @@ pub fn op_to_str(o: &Op) -> String {
         Op::Fake(f, v) => format!("F{f}v{v}"),
         Op::Drop => "D".into(),
         Op::Panic => "P".into(),
+        Op::ValuePanic(f) => format!("V{f}"),
     }
 }
 
 pub fn alphabet(small: bool) -> Vec<Op> {
-    let mut v = vec![Op::Fake(0, 0), Op::Drop, Op::Fake(1, 0), Op::Fake(0, 1), Op::Fake(2, 0), Op::Panic, Op::Fake(6, 0)];
+    let mut v = vec![Op::Fake(0, 0), Op::Drop, Op::Fake(1, 0), Op::Fake(0, 1), Op::Fake(2, 0), Op::Panic, Op::Fake(6, 0), Op::ValuePanic(0)];
     if !small {
-        v.extend([Op::Fake(1, 1), Op::Fake(2, 1), Op::Fake(3, 0), Op::Fake(3, 1), Op::Fake(4, 0), Op::Fake(5, 0), Op::Fake(5, 1), Op::Fake(6, 1), Op::Fake(7, 0), Op::Fake(7, 1)]);
+        v.extend([Op::ValuePanic(2), Op::Fake(1, 1), Op::Fake(2, 1), Op::Fake(3, 0), Op::Fake(3, 1), Op::Fake(4, 0), Op::Fake(5, 0), Op::Fake(5, 1), Op::Fake(6, 1), Op::Fake(7, 0), Op::Fake(7, 1)]);
     }
     v
 }
@@ -117,62 +130,62 @@ fn install(injector: &mut InjectorPP, f: u8, v: u8) {
     match (f, v) {
         (0, 0) => injector
             .when_called_async(inj::async_func!(f0(u32::default()), u32))
-            .will_return_async(inj::async_return!({ EVAL[0].fetch_add(1, SeqCst); 70 }, u32)),
+            .will_return_async(inj::async_return!({ ev(0); 70 }, u32)),
         (0, 1) => unsafe {
             injector
                 .when_called_async_unchecked(inj::async_func_unchecked!(f0(u32::default())))
-                .will_return_async_unchecked(inj::async_return_unchecked!({ EVAL[1].fetch_add(1, SeqCst); 80 }, u32))
+                .will_return_async_unchecked(inj::async_return_unchecked!({ ev(1); 80 }, u32))
         },
         (1, 0) => injector
             .when_called_async(inj::async_func!(f1(u32::default()), u32))
-            .will_return_async(inj::async_return!({ EVAL[2].fetch_add(1, SeqCst); 71 }, u32)),
+            .will_return_async(inj::async_return!({ ev(2); 71 }, u32)),
         (1, 1) => unsafe {
             injector
                 .when_called_async_unchecked(inj::async_func_unchecked!(f1(u32::default())))
-                .will_return_async_unchecked(inj::async_return_unchecked!({ EVAL[3].fetch_add(1, SeqCst); 81 }, u32))
+                .will_return_async_unchecked(inj::async_return_unchecked!({ ev(3); 81 }, u32))
         },
         (2, 0) => injector
             .when_called_async(inj::async_func!(f2(""), String))
-            .will_return_async(inj::async_return!({ EVAL[4].fetch_add(1, SeqCst); String::from("fake-two-heap-allocated-string") }, String)),
+            .will_return_async(inj::async_return!({ ev(4); String::from("fake-two-heap-allocated-string") }, String)),
         (2, 1) => unsafe {
             injector
                 .when_called_async_unchecked(inj::async_func_unchecked!(f2("")))
-                .will_return_async_unchecked(inj::async_return_unchecked!({ EVAL[5].fetch_add(1, SeqCst); String::from("FAKE-TWO-UNCHECKED-heap-string") }, String))
+                .will_return_async_unchecked(inj::async_return_unchecked!({ ev(5); String::from("FAKE-TWO-UNCHECKED-heap-string") }, String))
         },
         (3, 0) => injector
             .when_called_async(inj::async_func!(f3(), Big))
-            .will_return_async(inj::async_return!({ EVAL[6].fetch_add(1, SeqCst); Big([73; 16]) }, Big)),
+            .will_return_async(inj::async_return!({ ev(6); Big([73; 16]) }, Big)),
         (3, 1) => unsafe {
             injector
                 .when_called_async_unchecked(inj::async_func_unchecked!(f3()))
-                .will_return_async_unchecked(inj::async_return_unchecked!({ EVAL[7].fetch_add(1, SeqCst); Big([83; 16]) }, Big))
+                .will_return_async_unchecked(inj::async_return_unchecked!({ ev(7); Big([83; 16]) }, Big))
         },
         (4, _) => injector
             .when_called_async(inj::async_func!(f4(), ()))
-            .will_return_async(inj::async_return!({ EVAL[8].fetch_add(1, SeqCst); }, ())),
+            .will_return_async(inj::async_return!({ ev(8); }, ())),
         (5, 0) => injector
             .when_called_async(inj::async_func!(S0.m(0), u32))
-            .will_return_async(inj::async_return!({ EVAL[10].fetch_add(1, SeqCst); 75 }, u32)),
+            .will_return_async(inj::async_return!({ ev(10); 75 }, u32)),
         (5, 1) => unsafe {
             injector
                 .when_called_async_unchecked(inj::async_func_unchecked!(S0.m(0)))
-                .will_return_async_unchecked(inj::async_return_unchecked!({ EVAL[11].fetch_add(1, SeqCst); 85 }, u32))
+                .will_return_async_unchecked(inj::async_return_unchecked!({ ev(11); 85 }, u32))
         },
         (6, 0) => injector
             .when_called_async(inj::async_func!(f6(u32::default()), u32))
-            .will_return_async(inj::async_return!({ EVAL[12].fetch_add(1, SeqCst); 76 }, u32)),
+            .will_return_async(inj::async_return!({ ev(12); 76 }, u32)),
         (6, 1) => unsafe {
             injector
                 .when_called_async_unchecked(inj::async_func_unchecked!(f6(u32::default())))
-                .will_return_async_unchecked(inj::async_return_unchecked!({ EVAL[13].fetch_add(1, SeqCst); 86 }, u32))
+                .will_return_async_unchecked(inj::async_return_unchecked!({ ev(13); 86 }, u32))
         },
         (7, 0) => injector
             .when_called_async(inj::async_func!(f7(Tracked(0)), u32))
-            .will_return_async(inj::async_return!({ EVAL[14].fetch_add(1, SeqCst); 77 }, u32)),
+            .will_return_async(inj::async_return!({ ev(14); 77 }, u32)),
         (7, 1) => unsafe {
             injector
                 .when_called_async_unchecked(inj::async_func_unchecked!(f7(Tracked(0))))
-                .will_return_async_unchecked(inj::async_return_unchecked!({ EVAL[15].fetch_add(1, SeqCst); 87 }, u32))
+                .will_return_async_unchecked(inj::async_return_unchecked!({ ev(15); 87 }, u32))
         },
         _ => panic!("harness: no such async fake"),
     }
@@ -196,6 +209,7 @@ impl Model {
     pub fn enabled(&self, o: &Op) -> bool {
         match o {
             Op::Fake(..) => true,
+            Op::ValuePanic(f) => self.alive && !self.stacks[*f as usize].is_empty(),
             _ => self.alive,
         }
     }
@@ -205,6 +219,7 @@ impl Model {
                 self.alive = true;
                 self.stacks[*f as usize].push(*v);
             }
+            Op::ValuePanic(_) => {}
             _ => {
                 self.alive = false;
                 for s in self.stacks.iter_mut() {
@@ -375,6 +390,24 @@ pub fn run_history(hist: &[Op], second_thread: bool) -> Res {
                     Op::Fake(f, v) => {
                         install(&mut injector, f, v);
                         model.step(&op);
+                        observe(&model, &mut res, idx, second_thread);
+                    }
+                    Op::ValuePanic(f) => {
+                        // the failure of one evaluation is the user's own panic, delivered to the awaiting
+                        // code; it must not change what any later await (this thread or another) observes
+                        let fl = *model.stacks[f as usize].last().expect("enabled only while faked");
+                        let slot = eval_slot(f, fl);
+                        PANIC_NEXT[slot].store(true, SeqCst);
+                        let r = catch_unwind(|| await_one(f as usize, 3));
+                        let consumed = !PANIC_NEXT[slot].swap(false, SeqCst);
+                        match r {
+                            Err(p) if payload_text(p.as_ref()).starts_with("value expression fails") => {}
+                            Err(p) => res.violations.push(Violation { prop: "C14", key: "value-panic-replaced".into(), step: idx, what: format!("the value expression of faked f{f} panicked; the awaiting code saw a different panic: {}", payload_text(p.as_ref())) }),
+                            Ok((val, _)) => {
+                                let key = if consumed { "value-panic-swallowed" } else { "value-not-freshly-evaluated-per-await" };
+                                res.violations.push(Violation { prop: "C14", key: key.into(), step: idx, what: format!("await of faked f{f} whose value expression panics at this await completed with {val:?}") });
+                            }
+                        }
                         observe(&model, &mut res, idx, second_thread);
                     }
                     Op::Drop => return,
